@@ -5,6 +5,7 @@ go 1.14
 require (
 	github.com/coreos/etcd v3.3.19+incompatible
 	github.com/dgraph-io/badger/v2 v2.0.3
+	github.com/golang/protobuf v1.3.5
 	github.com/marekgalovic/anndb v0.0.0
 	github.com/satori/go.uuid v1.2.0
 	github.com/sirupsen/logrus v1.5.0
